@@ -54,7 +54,7 @@ var tiers = map[string]map[string]tierCfg{
 		"thorough": {Runs: 1600, Workers: 16, WorkerTimeout: 3 * time.Hour, CLI: true},
 	},
 	"C07": {
-		"quick":    {Runs: 64, Workers: 16, WorkerTimeout: 8 * time.Minute, CLI: true},
+		"quick":    {Runs: 96, Workers: 16, WorkerTimeout: 8 * time.Minute, CLI: true},
 		"thorough": {Runs: 3200, Workers: 16, WorkerTimeout: 3 * time.Hour, CLI: true},
 	},
 	"C10": {
